@@ -43,6 +43,7 @@ type topo struct {
 	Raw    []bool   `json:"raw"`   // forwarding raw BUS member / raw STAR member
 	Counts []int    `json:"counts"`
 	Conc   bool     `json:"concurrent"`
+	Fwd    string   `json:"forwarder"` // raw BUS members forward with Device, a RecvMsg/SendMsg loop, or a loop that re-sends every message twice through a Clone
 	Tr     string   `json:"transport"`
 	RSeed  string   `json:"rseed"`
 }
@@ -100,6 +101,10 @@ func genTopo(t *rapid.T) topo {
 		}
 	}
 	tp.Conc = rapid.Bool().Draw(t, "concurrent")
+	tp.Fwd = "device"
+	if tp.Kind == "bus-chain-fwd" {
+		tp.Fwd = rapid.SampledFrom([]string{"device", "loop", "loop-clone2"}).Draw(t, "forwarder")
+	}
 	return tp
 }
 
@@ -127,24 +132,63 @@ func expected(tp topo) []map[string]int {
 			}
 			// BUS: flood from src; cooked members deliver and stop, forwarding members pass on
 			// to every peer except the one it came from (and deliver nothing to an application).
-			var walk func(from, at int)
-			walk = func(from, at int) {
+			var walk func(from, at, mult int)
+			walk = func(from, at, mult int) {
 				if tp.Raw[at] {
+					if tp.Fwd == "loop-clone2" && at == firstRaw(tp) {
+						mult *= 2
+					}
 					for _, nb := range adj[at] {
 						if nb != from {
-							walk(at, nb)
+							walk(at, nb, mult)
 						}
 					}
 					return
 				}
-				exp[at][tag]++
+				exp[at][tag] += mult
 			}
 			for _, nb := range adj[src] {
-				walk(src, nb)
+				walk(src, nb, 1)
 			}
 		}
 	}
 	return exp
+}
+
+func firstRaw(tp topo) int {
+	for i, r := range tp.Raw {
+		if r {
+			return i
+		}
+	}
+	return -1
+}
+
+// forward is a hand-written forwarder for a raw BUS member: what Device does, or
+// the same with every message re-sent twice, the second time through a reference
+// obtained with Clone before the first send (a fan-out bridge does that).
+func forward(s mangos.Socket, twice bool) {
+	for {
+		m, err := s.RecvMsg()
+		if err != nil {
+			if err == mangos.ErrRecvTimeout {
+				continue
+			}
+			return
+		}
+		if twice {
+			m.Clone()
+			if err := s.SendMsg(m); err != nil {
+				m.Free()
+				m.Free()
+				return
+			}
+		}
+		if err := s.SendMsg(m); err != nil {
+			m.Free()
+			return
+		}
+	}
 }
 
 func TestC08(t *testing.T) {
@@ -161,7 +205,7 @@ func TestC08(t *testing.T) {
 			fmu.Lock()
 			defer fmu.Unlock()
 			if len(failures) > 0 {
-				stats.Fail(t, "C08:"+failures[0][0], tp, "%s with %d members (edges %v raw %v counts %v concurrent=%v over %s): %s", tp.Kind, tp.N, tp.Edges, tp.Raw, tp.Counts, tp.Conc, tp.Tr, failures[0][1])
+				stats.Fail(t, "C08:"+failures[0][0], tp, "%s with %d members (edges %v raw %v counts %v concurrent=%v forwarder=%s over %s): %s", tp.Kind, tp.N, tp.Edges, tp.Raw, tp.Counts, tp.Conc, tp.Fwd, tp.Tr, failures[0][1])
 			}
 		}()
 		star := strings.HasPrefix(tp.Kind, "star")
@@ -178,6 +222,11 @@ func TestC08(t *testing.T) {
 			socks[i] = fixture.New(name)
 			evs[i] = fixture.Hook(socks[i])
 			_ = socks[i].SetOption(mangos.OptionRecvDeadline, 5*time.Second)
+			if tp.Fwd == "loop-clone2" {
+				// doubled volumes must still stay below the queue lengths
+				_ = socks[i].SetOption(mangos.OptionWriteQLen, 512)
+				_ = socks[i].SetOption(mangos.OptionReadQLen, 512)
+			}
 		}
 		defer func() {
 			for _, s := range socks {
@@ -203,6 +252,10 @@ func TestC08(t *testing.T) {
 		// forwarding raw BUS members
 		for i := range socks {
 			if tp.Raw[i] && !star {
+				if tp.Fwd != "device" {
+					go forward(socks[i], tp.Fwd == "loop-clone2" && i == firstRaw(tp))
+					continue
+				}
 				if err := mangos.Device(socks[i], socks[i]); err != nil {
 					fail("device", "Device(xbus,xbus): %v", err)
 					return
@@ -385,12 +438,15 @@ func TestC08(t *testing.T) {
 		}
 		stats.Eval()
 		stats.Class("kind:" + tp.Kind)
+		if tp.Kind == "bus-chain-fwd" && firstRaw(tp) >= 0 {
+			stats.Class("forwarder:" + tp.Fwd)
+		}
 		stats.Class(fmt.Sprintf("members=%d", tp.N))
 		if tp.Conc {
 			stats.Class("concurrent")
 		}
 		if tp.N >= 3 {
-			stats.NonTrivial(fmt.Sprintf("%s|%v|%v|%v|%v|%s", tp.Kind, tp.Edges, tp.Raw, tp.Counts, tp.Conc, tp.Tr))
+			stats.NonTrivial(fmt.Sprintf("%s|%v|%v|%v|%v|%s|%s", tp.Kind, tp.Edges, tp.Raw, tp.Counts, tp.Conc, tp.Tr, tp.Fwd))
 		}
 		stats.Sample(tp)
 	})
